@@ -1031,6 +1031,13 @@ def _cp_cond(n):
     return " || ".join("i == %d" % (c - 1) for c in checkpoints(n))
 
 
+def _cp_stmt(n, k):
+    c = _cp_cond(n)
+    if not c:
+        return ""
+    return "\t\tif %s {\n\t\t\tprintln(\"CP\", %d, i+1)\n\t\t}" % (c, k)
+
+
 def loop_program(bodies, n, extra_decls="", body_sig="(i int) int32"):
     """bodies: [(name, decls, body)] -> one program; loop k runs body k n times."""
     out = ["package main", HELPERS, extra_decls]
@@ -1041,8 +1048,8 @@ def loop_program(bodies, n, extra_decls="", body_sig="(i int) int32"):
     out.append("\tvar acc int32")
     for k, (name, decls, body) in enumerate(bodies):
         out.append("\tfor i := 0; i < %d; i++ {" % n)
-        out.append("\t\tacc += body_%d(i)" % k)
-        out.append("\t\tif %s {\n\t\t\tprintln(\"CP\", %d, i+1)\n\t\t}" % (_cp_cond(n), k))
+        out.append("\t\tacc += body_%d(i %% 37)" % k)
+        out.append(_cp_stmt(n, k))
         out.append("\t}")
         out.append("\tprintln(acc)")
     out.append("}")
@@ -1126,7 +1133,12 @@ def matrix_loop_programs(n, types=None, contexts=None):
                 decls, body = matrix.CONTEXTS[c]
                 if c == "box" and t == "any":
                     body = "var e interface{{}} = {mk:13}\n\tv := e\n\tprintln({show:v})"
+                if c == "box" and t == "sl":
+                    # a type assertion to a NAMED slice type traps in Wa (C01's domain): box the unnamed type
+                    matrix.TYPES[t] = saved[t]
                 d, b = matrix._fill(decls, t), matrix._fill(body, t)
+                if t in MATRIX_TYPE_OVERRIDE:
+                    matrix.TYPES[t] = MATRIX_TYPE_OVERRIDE[t]
                 for nm in _RENAME:
                     pat = re.compile(r"(?<![\w.\"])%s(?![\w\"])" % nm)
                     d = pat.sub("%s_%d" % (nm, k), d)
@@ -1142,7 +1154,7 @@ def matrix_loop_programs(n, types=None, contexts=None):
             for k, (c, b) in enumerate(bodies):
                 out.append("\tfor i := 0; i < %d; i++ {" % n)
                 out.append("\t\tbody_%d()" % k)
-                out.append("\t\tif %s {\n\t\t\tprintln(\"CP\", %d, i+1)\n\t\t}" % (_cp_cond(n), k))
+                out.append(_cp_stmt(n, k))
                 out.append("\t}")
             out.append("}")
             progs.append((t, "\n".join(out) + "\n", names))
